@@ -77,7 +77,7 @@ def _schedule_counter(ck: Check, repo: Repo) -> None:
                           detail="" if ok else f"{m.qualname} runs once per agent inside a loop of learn(), and the counter is one number for all agents: it advances "
                                                f"n_agents times per learn step, so `counter % policy_freq` fires on another schedule than every policy_freq-th step",
                           construct=f"{cname}: step of the counter compared with policy_freq")
-    ck.floor("C08.9", n, 4, "steps of delayed-update counters")
+    ck.floor("C08.9", n, 3, "steps of delayed-update counters")
 
 
 # ------------------------------------------------------------------------------------------------ C08.10
@@ -103,10 +103,10 @@ def _batch_reads_intact(ck: Check, repo: Repo) -> None:
                     if r is not None and at is not None:
                         writes.append((r, c, at))
             for r, w, wn in writes:
-                # is r (an alias of) a tensor of the batch?  its definitions are reads of the experiences mapping / parameters
+                # is r (an alias of) a tensor of the batch?  its definitions lead back to a parameter of the learn function (the experiences) through
+                # subscripts, unpacking, .to(device) and similar value-preserving steps
                 defs = cfg.defs_reaching(wn, r)
-                from_batch = any(d.kind == "entry" or (cfg.value_of_def(d, r) is not None and any(
-                    isinstance(s, ast.Subscript) and isinstance(s.slice, ast.Constant) and isinstance(s.slice.value, str) for s in ast.walk(cfg.value_of_def(d, r)))) for d in defs)
+                from_batch = _from_params(cfg, wn, r, set(fn.params) - {"self"}, 0, set())
                 if not from_batch:
                     continue
                 n += 1
@@ -128,18 +128,49 @@ def _batch_reads_intact(ck: Check, repo: Repo) -> None:
                 ck.ob("C08.10", fn, late[0] if late else w, not late, f"{cname}.{mname}: no network reads `{r}` after `{short(w, 50)}` overwrote it in place",
                       detail=f"`{short(late[0], 60)}` runs after the in-place write: the value estimate is taken for the noise, not for the action that was stored" if late else "",
                       construct=f"{cname}.{mname}: reads of a batch tensor after an in-place write")
-    ck.floor("C08.10", n, 2, "in-place writes into batch tensors in the learn functions")
+    # no floor: a tree without any in-place write into a batch tensor satisfies the rule trivially (that is the repaired state); the self-validation
+    # variants keep a positive example that must be reported on every run of the thorough tier
+    ck.note("C08.10_inplace_writes_into_batch_tensors", n)
+
+
+def _from_params(cfg: CFG, at: Node, name: str, params: Set[str], depth: int, seen: Set) -> bool:
+    if name in params and any(d.kind == "entry" for d in cfg.defs_reaching(at, name)):
+        return True
+    if depth > 4 or (at.id, name) in seen:
+        return False
+    seen.add((at.id, name))
+    for d in cfg.defs_reaching(at, name):
+        if d.kind == "entry":
+            if name in params:
+                return True
+            continue
+        src = d.ast.value if isinstance(getattr(d, "ast", None), (ast.Assign, ast.AnnAssign, ast.AugAssign)) else getattr(d, "ast", None)
+        if src is None:
+            continue
+        for x in ast.walk(src):
+            if isinstance(x, ast.Name) and isinstance(x.ctx, ast.Load) and x.id != name or (isinstance(x, ast.Name) and x.id == name and d is not at):
+                if x.id in params or _from_params(cfg, d, x.id, params, depth + 1, seen):
+                    return True
+    return False
 
 
 # ------------------------------------------------------------------------------------------------ C08.11
+_ACTIVE = False
+
+
 def _categorical_target(ck: Check, repo: Repo) -> None:
-    if getattr(ck, "_nested_from_c18", False):
+    # C18 itself takes obligations over from C08 (C18.7): when this function is reached from inside that nested C08 run, it does nothing
+    global _ACTIVE
+    if _ACTIVE:
         return
     from . import c18
     sub = Check("C18", ck.tier, ck.repo_root)
     sub.known = []
-    sub._nested_from_c08 = True
-    c18.run(sub, repo)
+    _ACTIVE = True
+    try:
+        c18.run(sub, repo)
+    finally:
+        _ACTIVE = False
     ck.rule("C08.11", "the distributional learner's target is the exact categorical projection of reward + gamma^n * support under the shared network's next-state "
                       "distribution (obligations of C18.1 - C18.6 on RainbowDQN._dqn_loss, shared with the C18 check)")
     taken = [replace(o, rule="C08.11") for o in sub.obs if o.rule in ("C18.1", "C18.2", "C18.3", "C18.4", "C18.5", "C18.6")]
